@@ -4,29 +4,37 @@ Property: rendering does not modify the data passed in, the environment globals 
 than through callables the data itself provides), and rendering the same template again or after other templates
 gives the same output as a single isolated render.
 
-Every check builds *fresh* ``Environment`` objects (real ``DictLoader``, real compile, natively) for each path:
+Every check builds *fresh* ``Environment`` objects (real ``DictLoader``, real loading) for each path; compiled code
+is shared between them only through jinja2's own ``BytecodeCache`` interface (an in-memory store per configuration):
 
 * one *isolated* environment in which the template under test ``T`` is loaded and rendered exactly once, and
 * shared environments in which ``T`` and another template ``O`` are rendered in the sequences ``T O T T`` and
   ``O T T`` with the *same* data object.
 
 Every render of ``T`` must give the isolated result (text, and the values observed through a recording callable,
-frozen at the time of the call); afterwards the data object, ``environment.globals`` and the ``globals`` of every
-template in the environment's cache must be structurally identical (types, order, contents) to deep snapshots
-taken before the first render.
+frozen at the time of the call); afterwards the data object, the dict handed to ``render``, ``environment.globals``,
+the dict given as ``globals=`` and the ``globals`` of every template in the environment's cache must be structurally
+identical (types, order, contents) to deep snapshots taken before the first render.
 
 * ``rep[...]`` (mode A): skeleton templates (container filters with container arguments, ``set``/namespaces,
   loops that assign, macros with mutable defaults, call blocks, imports with cached modules, includes,
   inheritance) on containers built from symbolic ``List[int]`` / ints / a flag: nested lists, dicts of ints,
   dicts of lists, lists of dicts; environment globals and template globals are containers of the same symbolic ints.
-* ``tab[...]`` (mode B): selectors (template, other template, data row, order) decoded by forks; natively: a table
-  of one-expression templates using every built-in filter that takes container data or container-valued arguments,
-  plus the skeleton templates, on concrete rows (strings, Markup, objects, tuples, empties), autoescape on and off.
+  Quick tier: ``T O T`` in one fresh environment whose first render is the isolated one; template globals given to
+  the template (``tg``) or, for templates that import / include / extend, also to the environment (``notg``: the
+  template then has no extra globals, so its imports use the *cached* modules).  Thorough: both sequences against a
+  separate isolated environment, both ways of giving the globals.
+* ``tab[...]`` (mode B): selectors (template, data row, combination of other template / order / globals placement)
+  decoded by forks; natively: a table of one-expression templates using every built-in filter that takes container
+  data or container-valued arguments, plus statement templates and the skeletons, on concrete rows (strings, Markup,
+  objects, tuples, empties), autoescape on and off.
 * ``imp[...]`` (mode B): module caching of imported templates versus template globals: importer A and importer B
-  (import / from-import / with context / through include / through extends / through another module) each loaded
-  without extra globals, with ``get_template(..., globals=)``, ``from_string(..., globals=)`` or by a cache hit
-  that updates the globals; rendered A B A B in one environment; each render equals the isolated one (so a library
-  imported first without extra globals and then by a template that has them shows them, and the reverse).
+  (import / from-import / with context / through include / through extends / through another module / include
+  without context) each loaded without extra globals, with ``get_template(..., globals=)``,
+  ``from_string(..., globals=)`` or by a cache hit that updates the globals; optionally the library's module
+  pre-filled through ``Template.module``, optionally a render that fails first (a global callable raising inside the
+  library body); rendered A B A B in one environment; each render equals the isolated one (so a library imported
+  first without extra globals and then by a template that has them shows them, and the reverse; nothing leaks).
 
 All of it sync, and async (``render_async`` driven without an event loop).
 """
